@@ -1,19 +1,274 @@
-(* Driver for the extracted model: same case protocol as the Rust harness. *)
+(* Driver for the extracted model: same case protocol and the same canonical output
+   format as the Rust harness, so blocks can be compared textually. *)
 open Glue
+open Model
 
 let out = Buffer.create 65536
 let emit s = Buffer.add_string out s; Buffer.add_char out '\n'
 
+(* ---- conversions from S-expressions -------------------------------------------------- *)
+let width_of_atom (s : Stdlib.String.t) : width =
+  if s = "u" then Unl else Bits (n_of_dec s)
+
+let width_str (w : width) : Stdlib.String.t =
+  match w with Unl -> "u" | Bits x -> Stdlib.string_of_int (int_of_n x)
+
+let binop_of = function
+  | "Add" -> Add | "Sub" -> Sub | "Mul" -> Mul | "Div" -> Div | "Or" -> Or | "Xor" -> Xor
+  | "And" -> And | "Equal" -> Equal | "NotEqual" -> NotEqual | "LessEqual" -> LessEqual
+  | "GreaterEqual" -> GreaterEqual | "Less" -> Less | "Greater" -> Greater
+  | "LogicalAnd" -> LogicalAnd | "LogicalOr" -> LogicalOr | "LeftShift" -> LeftShift
+  | "RightShift" -> RightShift | s -> failwith ("binop " ^ s)
+
+let unop_of = function
+  | "Plus" -> Plus | "Negate" -> Negate | "Complement" -> Complement | "Not" -> Not
+  | s -> failwith ("unop " ^ s)
+
+let num_of_atom (s : Stdlib.String.t) : n =
+  if Stdlib.String.length s > 2 && Stdlib.String.sub s 0 2 = "0x"
+  then n_of_hex (Stdlib.String.sub s 2 (Stdlib.String.length s - 2)) else n_of_dec s
+
+let rec expr_of (s : sexp) : expr =
+  match s with
+  | L [Atom "c"; Atom b; Atom w] -> EConst { bits = num_of_atom b; wd = width_of_atom w }
+  | L [Atom "w"; Atom name] -> EWire (cstr name)
+  | L [Atom "b"; Atom op; l; r] -> EBin (binop_of op, expr_of l, expr_of r)
+  | L [Atom "u"; Atom op; e] -> EUn (unop_of op, expr_of e)
+  | L (Atom "m" :: arms) -> EMux (arms_of arms)
+  | L [Atom "s"; e; Atom lo; Atom hi] -> ESlice (expr_of e, n_of_dec lo, n_of_dec hi)
+  | L [Atom "cat"; l; r] -> ECat (expr_of l, expr_of r)
+  | L (Atom "in" :: e :: items) -> EIn (expr_of e, items_of items)
+  | _ -> failwith "expr_of: bad expression"
+and arms_of = function
+  | [] -> ANil
+  | L [Atom "arm"; c; v] :: rest -> ACons (expr_of c, expr_of v, arms_of rest)
+  | _ -> failwith "arms_of"
+and items_of = function
+  | [] -> XNil
+  | e :: rest -> XCons (expr_of e, items_of rest)
+
+let opt_of (s : Stdlib.String.t) = if s = "-" then None else Some (cstr s)
+
+let action_of (s : sexp) : action =
+  match s with
+  | L [Atom "assign"; Atom name; Atom w; e] -> AAssign (cstr name, expr_of e, width_of_atom w)
+  | L [Atom "rdreg"; Atom num; Atom outp] -> AReadReg (cstr num, cstr outp)
+  | L [Atom "rdmem"; Atom en; Atom addr; Atom outp; Atom nb; Atom isi] ->
+    AReadMemory (opt_of en, cstr addr, cstr outp, n_of_dec nb, isi = "1")
+  | L [Atom "wrreg"; Atom num; Atom inp] -> AWriteReg (cstr num, cstr inp)
+  | L [Atom "wrmem"; Atom en; Atom addr; Atom inp; Atom nb] ->
+    AWriteMemory (opt_of en, cstr addr, cstr inp, n_of_dec nb)
+  | L [Atom "status"; Atom w] -> ASetStatus (cstr w)
+  | _ -> failwith "action_of"
+
+let wtype_of = function
+  | "Constant" -> TConstant | "BuiltinInput" -> TBuiltinInput | "BuiltinOutput" -> TBuiltinOutput
+  | "RegisterBankInput" -> TRegisterBankInput | "RegisterBankOutput" -> TRegisterBankOutput
+  | "RegisterBankSpecial" -> TRegisterBankSpecial | "Normal" -> TNormal
+  | s -> failwith ("wtype " ^ s)
+
+let bank_of (s : sexp) : bank =
+  match s with
+  | L (Atom "bank" :: Atom label :: Atom stall :: Atom bubble :: rest) ->
+    let sigs = List.filter_map (function
+        | L [Atom "sig"; Atom i; Atom o; Atom w; Atom db; Atom dw] ->
+          Some (((cstr i, cstr o), width_of_atom w), (cstr o, { bits = num_of_atom db; wd = width_of_atom dw }))
+        | _ -> None) rest in
+    { b_label = cstr label; b_signals = List.map fst sigs; b_defaults = List.map snd sigs;
+      b_stall = cstr stall; b_bubble = cstr bubble }
+  | _ -> failwith "bank_of"
+
+let program_of (s : sexp) : program =
+  match s with
+  | L [Atom "prog"; L (Atom "consts" :: consts); L (Atom "banks" :: banks);
+       L (Atom "actions" :: actions); L (Atom "defaulted" :: defaulted); L (Atom "types" :: types)] ->
+    { p_consts = List.map (function
+          | L [Atom name; Atom b; Atom w] -> (cstr name, { bits = num_of_atom b; wd = width_of_atom w })
+          | _ -> failwith "const") consts;
+      p_banks = List.map bank_of banks;
+      p_actions = List.map action_of actions;
+      p_defaulted = List.map (function Atom a -> cstr a | _ -> failwith "defaulted") defaulted;
+      p_types = List.map (function
+          | L [Atom name; Atom t] -> (cstr name, wtype_of t)
+          | _ -> failwith "type") types }
+  | _ -> failwith "program_of"
+
+(* ---- printers (must match the harness) ------------------------------------------------ *)
+let errs_str (es : err list) : Stdlib.String.t =
+  Stdlib.String.concat " ; "
+    (List.map (fun e -> ostr (ekind_name e.ek) ^ "|" ^ Stdlib.String.concat "," (List.map ostr e.enames)) es)
+
+let value_str (v : wval) = hex_of_n v.bits ^ "/" ^ width_str v.wd
+
+let values_line (vals : (Model.string * wval) list) : Stdlib.String.t =
+  let items = List.map (fun (k, v) -> ostr k ^ "=" ^ value_str v) vals in
+  Stdlib.String.concat "," (List.sort compare items)
+
+let regs_line (r : n list) = Stdlib.String.concat "," (List.map hex_of_n r)
+
+let mem_line (m : (n * n) list) =
+  if m = [] then "-" else
+    Stdlib.String.concat "," (List.map (fun (a, b) ->
+        let h = hex_of_n b in hex_of_n a ^ "=" ^ (if Stdlib.String.length h < 2 then "0" ^ h else h)) m)
+
+let b01 b = if b then "1" else "0"
+
+let state_lines (o : options) (s : mstate) =
+  emit ("regs " ^ regs_line s.regs);
+  emit ("mem " ^ mem_line s.mem);
+  emit (Printf.sprintf "flags cycle=%d done=%s halted=%s timedout=%s stat=%s"
+          (int_of_n s.cycle) (b01 (done0 o s)) (b01 (halted s)) (b01 (timed_out o s))
+          (match s.last_status with Some x -> Stdlib.string_of_int (int_of_n x) | None -> "-"))
+
+let make_options (flags : Stdlib.String.t) (timeout : Stdlib.String.t) : options =
+  let o = ref default_options in
+  Stdlib.String.iter (fun c ->
+      match c with
+      | 'q' -> o := set_quiet !o
+      | 'd' -> o := set_debug !o
+      | 't' -> o := set_test !o
+      | 'u' -> o := set_no_group !o
+      | 'a' -> o := set_trace_assignments !o
+      | '-' -> ()
+      | _ -> failwith "bad option flag") flags;
+  set_timeout !o (n_of_dec timeout)
+
+let features_of (s : Stdlib.String.t) : features =
+  (* five characters 0/1: sbo swb rmd dmd duo *)
+  { f_sbo = s.[0] = '1'; f_swb = s.[1] = '1'; f_rmd = s.[2] = '1'; f_dmd = s.[3] = '1'; f_duo = s.[4] = '1' }
+
+let mem_of_atom (s : Stdlib.String.t) : (n * n) list =
+  if s = "-" then [] else
+    List.fold_left (fun m item ->
+        match Stdlib.String.split_on_char '=' item with
+        | [a; b] -> mem_put m (n_of_hex a) (n_of_hex b)
+        | _ -> failwith "mem item") [] (Stdlib.String.split_on_char ',' s)
+
+let inject (s : mstate) (spec : Stdlib.String.t) : mstate =
+  let kind = spec.[0] in
+  let rest = Stdlib.String.sub spec 1 (Stdlib.String.length spec - 1) in
+  match Stdlib.String.index_opt rest '=' with
+  | None -> failwith "inject"
+  | Some i ->
+    let key = Stdlib.String.sub rest 0 i in
+    let v = Stdlib.String.sub rest (i + 1) (Stdlib.String.length rest - i - 1) in
+    (match kind with
+     | 'r' -> { s with regs = set_nth s.regs (nat_of_int (int_of_string key)) (n_of_hex v) }
+     | 'm' -> { s with mem = mem_put s.mem (n_of_hex key) (n_of_hex v) }
+     | 'v' ->
+       (match Stdlib.String.split_on_char '/' v with
+        | [b; w] -> { s with values = upd s.values (cstr key) { bits = n_of_hex b; wd = width_of_atom w } }
+        | _ -> failwith "inject value")
+     | _ -> failwith "inject kind")
+
+(* ---- commands ------------------------------------------------------------------------- *)
 let cmd_dis args =
   match args with
   | [h] ->
-    let (n, text) = Model.disassemble (n_of_hex h) in
+    let (n, text) = disassemble (n_of_hex h) in
     emit (Printf.sprintf "%d %s" (int_of_n n) (hex_encode (ostr text)))
   | _ -> failwith "dis: bad arguments"
+
+(* msim <features> <compiledhex> <mem> <cycles> <flags> <timeout> [inject...] *)
+let cmd_msim args =
+  match args with
+  | feat :: comp :: mem0 :: cycles :: flags :: timeout :: injects ->
+    let f = features_of feat in
+    let p = program_of (parse_sexp (hex_decode comp)) in
+    let o = make_options flags timeout in
+    (match initial_state p with
+     | Err es -> emit ("init err " ^ errs_str es)
+     | Ok s0 ->
+       let s = ref (List.fold_left inject { s0 with mem = mem_of_atom mem0 } injects) in
+       state_lines o !s;
+       (try
+          for _ = 1 to int_of_string cycles do
+            emit ("pre " ^ values_line !s.values);
+            (match step f o p !s with
+             | Ok (s1, text) ->
+               emit "step ok";
+               emit ("out " ^ hex_encode (ostr text));
+               s := s1;
+               emit ("post " ^ values_line !s.values);
+               state_lines o !s
+             | Err es -> emit ("step err " ^ errs_str es); raise Exit)
+          done;
+          (match dump_y86 o p !s with
+           | Ok t -> emit ("dump " ^ hex_encode (ostr t))
+           | Err es -> emit ("dump err " ^ errs_str es))
+        with Exit -> ()))
+  | _ -> failwith "msim: bad arguments"
+
+(* mrun <features> <compiledhex> <mem> <flags> <timeout> [inject...] *)
+let cmd_mrun args =
+  match args with
+  | feat :: comp :: mem0 :: flags :: timeout :: injects ->
+    let f = features_of feat in
+    let p = program_of (parse_sexp (hex_decode comp)) in
+    let o = make_options flags timeout in
+    (match initial_state p with
+     | Err es -> emit ("init err " ^ errs_str es)
+     | Ok s0 ->
+       let s0 = List.fold_left inject { s0 with mem = mem_of_atom mem0 } injects in
+       let fuel = nat_of_int (int_of_string timeout + 1) in
+       (match run fuel f o p s0 with
+        | Ok (s, text) ->
+          emit "run ok";
+          emit ("out " ^ hex_encode (ostr text));
+          emit ("values " ^ values_line s.values);
+          state_lines o s;
+          (match dump_y86 o p s with
+           | Ok t -> emit ("dump " ^ hex_encode (ostr t))
+           | Err es -> emit ("dump err " ^ errs_str es))
+        | Err es -> emit ("run err " ^ errs_str es)))
+  | _ -> failwith "mrun: bad arguments"
+
+(* mexpr <features> <sexprhex> [name:width:bitshex:isconst ...] *)
+let cmd_mexpr args =
+  match args with
+  | feat :: sx :: env ->
+    let f = features_of feat in
+    let e = expr_of (parse_sexp (hex_decode sx)) in
+    let entries = List.map (fun spec ->
+        match Stdlib.String.split_on_char ':' spec with
+        | [name; w; b; c] -> (cstr name, { bits = n_of_hex b; wd = width_of_atom w }, c = "1")
+        | _ -> failwith "env") env in
+    let vals = List.map (fun (k, v, _) -> (k, v)) entries in
+    let consts = List.filter_map (fun (k, v, c) -> if c then Some (k, v) else None) entries in
+    let g name = match lookup vals name with Some v -> Some v.wd | None -> None in
+    (match check f g (lookup consts) e with
+     | Ok w -> emit ("check ok " ^ width_str w)
+     | Err es -> emit ("check err " ^ errs_str es));
+    (match eval f (lookup vals) e with
+     | Ok v -> emit ("eval ok " ^ value_str v)
+     | Err es -> emit ("eval err " ^ errs_str es))
+  | _ -> failwith "mexpr: bad arguments"
+
+(* mem <a=v,...|-> <op>... *)
+let cmd_mem args =
+  match args with
+  | m0 :: ops ->
+    let m = ref (mem_of_atom m0) in
+    List.iter (fun op ->
+        let kind = op.[0] in
+        let f = Stdlib.String.split_on_char ':' (Stdlib.String.sub op 1 (Stdlib.String.length op - 1)) in
+        match kind, f with
+        | 'r', [a; nb] ->
+          let v = mem_read !m (n_of_hex a) (n_of_dec nb) in
+          emit ("read " ^ value_str v)
+        | 'w', [a; v; nb] -> m := mem_write !m (n_of_hex a) (n_of_hex v) (n_of_dec nb)
+        | _ -> failwith "mem op") ops;
+    emit ("mem " ^ mem_line !m);
+    emit ("dump " ^ hex_encode (ostr (dump_memory !m)))
+  | _ -> failwith "mem: bad arguments"
 
 let dispatch cmd args =
   match cmd with
   | "dis" -> cmd_dis args
+  | "msim" -> cmd_msim args
+  | "mrun" -> cmd_mrun args
+  | "mexpr" -> cmd_mexpr args
+  | "mem" -> cmd_mem args
   | _ -> emit ("unknown command " ^ cmd)
 
 let () =
